@@ -120,6 +120,9 @@ def snapshot(d):
     for root, _, files in os.walk(d):
         for f in files:
             p = os.path.join(root, f)
+            if os.path.islink(p) and not os.path.exists(p):
+                out[os.path.relpath(p, d)] = b"<dangling link to " + os.readlink(p).encode() + b">"
+                continue
             out[os.path.relpath(p, d)] = open(p, "rb").read()
     return out
 
